@@ -83,7 +83,7 @@ theorem get_put_same (d : Dag) (s : KV) (i v : Nat) (tk val : Bytes) (hi : U32 i
   have hne : dataKey i v 0 tk false ≠ dataKey i v 0 tk true := dataKey_ne_of hi hv hi hv (by simp)
   unfold getV
   rw [read_own_write d _ v v he]
-  simp [putV, KV.set, KV.del, hne]
+  simp [putV, Gen.storePutClearsTombstone, KV.set, KV.del, hne]
 
 /-- a deletion at a version hides every older value at that version -/
 theorem get_delete_same (d : Dag) (s : KV) (i v : Nat) (tk : Bytes) :
@@ -172,7 +172,7 @@ theorem noBoth_reachable (ops : List Op) (hwf : ∀ o ∈ ops, o.WF) : NoBoth (o
       simp only [Op.apply] at hboth
       by_cases hsame : i' = i ∧ tk' = tk ∧ ver' = ver
       · obtain ⟨rfl, rfl, rfl⟩ := hsame
-        simp [putV, KV.del] at hboth
+        simp [putV, Gen.storePutClearsTombstone, KV.del] at hboth
       · rw [raw_putV_other s i ver i' ver' tk tk' val false ho.1 ho.2 hi' hv' hsame,
             raw_putV_other s i ver i' ver' tk tk' val true ho.1 ho.2 hi' hv' hsame] at hboth
         exact hs i' ver' tk' hi' hv' hboth
@@ -183,7 +183,7 @@ theorem noBoth_reachable (ops : List Op) (hwf : ∀ o ∈ ops, o.WF) : NoBoth (o
       · obtain ⟨rfl, rfl, rfl⟩ := hsame
         have hne : dataKey i' ver' 0 tk' false ≠ dataKey i' ver' 0 tk' true :=
           dataKey_ne_of hi' hv' hi' hv' (by simp)
-        simp [delV, KV.set, KV.del, hne] at hboth
+        simp [delV, Gen.storeDeleteWritesTombstone, KV.set, KV.del, hne] at hboth
       · rw [raw_delV_other s i ver i' ver' tk tk' false ho.1 ho.2 hi' hv' hsame,
             raw_delV_other s i ver i' ver' tk tk' true ho.1 ho.2 hi' hv' hsame] at hboth
         exact hs i' ver' tk' hi' hv' hboth
